@@ -594,9 +594,101 @@ def rule_skipped_token_trivia(ck, facts):
     ck.floor(R, "token_arms_checked", n, 40)
 
 
+def token_texts(facts):
+    """TokenKind variant -> its spelling, read off the arms of <TokenKind as Display>::fmt"""
+    from ..cfg import DefIndex
+    from ..facts import const_str
+
+    out = {}
+    for f in facts.crate(roles.LANG).fns:
+        if "TokenKind" in f.path and "Display" in f.path and f.kind != "promoted":
+            cov = cover.coverage(facts, f, TK)
+            if not cov or cov.primary is None:
+                continue
+            di = DefIndex(f)
+            for v in cov.primary_handled():
+                tb = cov.arm_target(v)
+                if tb is None:
+                    continue
+                for b in reachable(f, tb, stop=[cov.primary.block]):
+                    t = f.term(b)
+                    if t[KIND] != "call":
+                        continue
+                    for a in t[5]:
+                        sv = None
+                        if a[0] == "c":
+                            sv = const_str(a)
+                        else:
+                            r = di.resolve(a)
+                            if r[0] == "const":
+                                sv = const_str(r[1])
+                        if sv is not None:
+                            out[v] = sv
+    return out
+
+
+def rule_token_glue(ck, facts):
+    """two delimiter tokens of the same kind written next to each other"""
+    from ..cfg import dominators
+
+    R = "C14.token-glue"
+    ck.rule(R, "a printer arm that writes both the opening and the closing delimiter of a list for one token kind K, where the spelling of K written twice is the spelling of another token (`|` `|` = `||`), never leaves nothing between them: on the `list is empty` edge of the arm the separator is not the empty document. (`| | body` printed as `|| body` is lexed as the or-operator and no longer parses.)")
+    texts = token_texts(facts)
+    ck.floor(R, "token_spellings", len(texts), 60)
+    spell = set(texts.values())
+    doubling = {k for k, v in texts.items() if v and (v + v) in spell}
+    ck.setcount("self_gluing_token_kinds", len(doubling))
+    n = 0
+    for f in facts.crate(FMT).fns:
+        if f.kind == "promoted" or "cst_print" not in f.path or "::tests" in f.path:
+            continue
+        cov = cover.coverage(facts, f, TK)
+        if not cov or cov.primary is None:
+            continue
+        for v in sorted(cov.primary_handled() & doubling):
+            tb = cov.arm_target(v)
+            if tb is None:
+                continue
+            region = set(reachable(f, tb, stop=[cov.primary.block]))
+            emits = [b for b in region if f.term(b)[KIND] == "call" and (callee(f.term(b)) or "").split("::")[-1].startswith("emit_token")]
+            if len(emits) < 2:
+                continue  # the arm writes the token once: not both delimiters
+            n += 1
+            dom = dominators(f)
+            di = None
+            bad = None
+            for b in region:
+                t = f.term(b)
+                if t[KIND] != "switch" or t[4][0] not in ("cp", "mv"):
+                    continue
+                from ..cfg import DefIndex
+
+                di = di or DefIndex(f)
+                r = di.resolve(t[4])
+                if not (r[0] == "call" and (callee(r[1]) or "").split("::")[-1] == "is_empty"):
+                    continue
+                # the edge on which is_empty() is true
+                zero = [tb2 for vv, tb2 in t[6] if int(vv) == 0]
+                true_edge = t[7] if zero else None
+                if true_edge is None:
+                    continue
+                for b2 in region:
+                    if b2 == true_edge or (true_edge in dom.get(b2, ()) and not any(z in dom.get(b2, ()) for z in zero)):
+                        t2 = f.term(b2)
+                        if t2[KIND] == "call" and (callee(t2) or "").split("::")[-1] == "nil":
+                            bad = t2
+            key = "delimiters|%s|%s" % (f.short.split("::")[-1], v)
+            if bad is None:
+                ck.ok(R, key, {"kind": v, "spelling": texts[v]})
+            else:
+                ck.bad(R, key, "%s writes `%s` for both ends of a list and, when the list is empty, nothing in between: `%s%s` is the spelling of another token, so `%s %s` (a lambda without parameters) is printed as `%s%s` and the output no longer parses" % (f.short, texts[v], texts[v], texts[v], texts[v], texts[v], texts[v], texts[v]), f.where(bad))
+    ck.floor(R, "same_kind_delimiter_arms", n, 1)
+
+
 def run(ck, facts, tier):
     pm = ParserModel(facts)
     ck.floor("C14.anchor", "fmt_bodies", len(facts.crate(FMT).fns), 100)
+    rule_token_glue(ck, facts)
     rule_skipped_token_trivia(ck, facts)
     rule_dispatch(ck, facts, pm)
     rule_comment_kinds(ck, facts)
